@@ -13,6 +13,7 @@ decode_with_length is run on msg + several tails.
 
 import copy
 import random
+import time
 
 from vsim import steps, world, specgen, shrink, wire
 from vsim.rng import mix
@@ -289,11 +290,14 @@ class C15(Engine):
         capped = False
         all_indices = list(range(len(sent)))
 
+        stream_started = time.time()
+
         for size in sizes:
             if stopped:
                 break
 
-            if result.ticks > 2 * RUN_TICKS:
+            if result.ticks > 2 * RUN_TICKS \
+                    or time.time() - stream_started > 60:
                 # Simulated-time cap of the run: the stream is abandoned,
                 # nothing can be said about what was not delivered yet.
                 result.stats['streams-abandoned-at-tick-cap'] += 1
